@@ -3,6 +3,7 @@ package govc
 import (
 	"fmt"
 	"go/ast"
+	"go/parser"
 	"go/token"
 	"go/types"
 	"strings"
@@ -445,6 +446,9 @@ func (e *Exec) evalCall(st *State, call *ast.CallExpr) Value {
 		if b, ok := info.Uses[id].(*types.Builtin); ok {
 			return e.evalBuiltin(st, b.Name(), call)
 		}
+	}
+	if v, ok := st.pre[call]; ok {
+		return v
 	}
 	if inl := e.inlineTarget(st, call); inl != nil {
 		rs := e.inlineCall(st, call, inl)
@@ -1372,6 +1376,85 @@ func (e *Exec) truncOK(at ast.Node) bool {
 		if w == txt {
 			return true
 		}
+	}
+	// the same expression with local variables renamed is still the expression the contract names
+	if x, isExpr := at.(ast.Expr); isExpr {
+		for _, w := range e.contract.WrapOK {
+			if strings.HasPrefix(w, "conv:") {
+				continue
+			}
+			pat, err := parser.ParseExpr(w)
+			if err != nil {
+				continue
+			}
+			fwd, bwd := map[string]string{}, map[string]string{}
+			if e.sameUpToLocals(pat, x, fwd, bwd) {
+				return true
+			}
+		}
+	}
+	return false
+}
+
+// sameUpToLocals compares a contract expression with a code expression; an identifier of the contract that names
+// nothing in the function may stand for a local variable of the code (consistently, one-to-one).
+func (e *Exec) sameUpToLocals(pat, x ast.Expr, fwd, bwd map[string]string) bool {
+	pat, x = ast.Unparen(pat), ast.Unparen(x)
+	switch p := pat.(type) {
+	case *ast.Ident:
+		c, ok := x.(*ast.Ident)
+		if !ok {
+			return false
+		}
+		if p.Name == c.Name {
+			return true
+		}
+		v, isVar := e.info().Uses[c].(*types.Var)
+		if !isVar || v.IsField() || v.Parent() == nil || v.Parent() == v.Pkg().Scope() {
+			return false
+		}
+		if sc := e.curPkg().Types.Scope().Innermost(c.Pos()); sc != nil {
+			if _, o := sc.LookupParent(p.Name, c.Pos()); o != nil {
+				return false
+			}
+		}
+		if a, ok := fwd[p.Name]; ok && a != c.Name {
+			return false
+		}
+		if b, ok := bwd[c.Name]; ok && b != p.Name {
+			return false
+		}
+		fwd[p.Name], bwd[c.Name] = c.Name, p.Name
+		return true
+	case *ast.BasicLit:
+		c, ok := x.(*ast.BasicLit)
+		return ok && c.Kind == p.Kind && c.Value == p.Value
+	case *ast.SelectorExpr:
+		c, ok := x.(*ast.SelectorExpr)
+		return ok && c.Sel.Name == p.Sel.Name && e.sameUpToLocals(p.X, c.X, fwd, bwd)
+	case *ast.BinaryExpr:
+		c, ok := x.(*ast.BinaryExpr)
+		return ok && c.Op == p.Op && e.sameUpToLocals(p.X, c.X, fwd, bwd) && e.sameUpToLocals(p.Y, c.Y, fwd, bwd)
+	case *ast.UnaryExpr:
+		c, ok := x.(*ast.UnaryExpr)
+		return ok && c.Op == p.Op && e.sameUpToLocals(p.X, c.X, fwd, bwd)
+	case *ast.StarExpr:
+		c, ok := x.(*ast.StarExpr)
+		return ok && e.sameUpToLocals(p.X, c.X, fwd, bwd)
+	case *ast.IndexExpr:
+		c, ok := x.(*ast.IndexExpr)
+		return ok && e.sameUpToLocals(p.X, c.X, fwd, bwd) && e.sameUpToLocals(p.Index, c.Index, fwd, bwd)
+	case *ast.CallExpr:
+		c, ok := x.(*ast.CallExpr)
+		if !ok || len(c.Args) != len(p.Args) || !e.sameUpToLocals(p.Fun, c.Fun, fwd, bwd) {
+			return false
+		}
+		for i := range p.Args {
+			if !e.sameUpToLocals(p.Args[i], c.Args[i], fwd, bwd) {
+				return false
+			}
+		}
+		return true
 	}
 	return false
 }
